@@ -344,6 +344,7 @@ func (h *Session) purge(now time.Time) error {
 		}()
 	}
 
+	verifGate("purge.offline")
 	for _, host := range offline {
 		h.makeOffline(host) // will lock/unlock row
 	}
